@@ -566,23 +566,34 @@ def rel5(ctx, c):
     where = repo.loc(fn, fn.node)
     body = body_without_doc(fn.node)
     anr = next((s for s in body if isinstance(s, ast.If) and "additional_needs_resolution" in U(s.test)), None)
-    if anr is None:
-        raise AnalysisError("REL-5: the additional_needs_resolution arm of fix_addresses was not found")
     params = [p for p in fn.params if p != "self"]
-    tmp = ast.parse("def f(self, %s):\n    pass" % ", ".join(params)).body[0]
-    tmp.body = anr.body
-    outs = Interp(tmp, consts=ctx.env).run()
+    if anr is None:
+        # the arm is not a top-level `if` of this method (guard clause, helper method): interpret the method with its helpers and keep the
+        # paths on which the flag is true
+        from ..inline import flatten
+        try:
+            outs = Interp(flatten(repo, fn, depth=2), consts=ctx.env, alias_paths=True).run()
+        except PathCap as e:
+            c.undecided("fix_addresses:pcr", "path-cap", str(e), where)
+            return
+        outs = [o for o in outs if o.kind in ("fall", "return") and not o.path.unk
+                and any(strip_ver(a).endswith("code_pkg.additional_needs_resolution") and t for a, t in o.path.conds)]
+        if not outs:
+            c.undecided("fix_addresses:pcr", "the additional_needs_resolution arm was not located", "", where)
+            return
+    else:
+        tmp = ast.parse("def f(self, %s):\n    pass" % ", ".join(params)).body[0]
+        tmp.body = anr.body
+        outs = [o for o in Interp(tmp, consts=ctx.env).run() if o.kind == "fall"]
     n = 0
     for o in outs:
-        if o.kind != "fall":
-            continue
         n += 1
         add = o.path.env.get("self.code_pkg.additional")
         ja = None
         if isinstance(add, Ctor) and add.cls in ("NumericValue", "call:NumericValue"):
             ja = add.args[0] if add.args else None
             hint = add.kw.get("size_hint")
-        expr_arm = any("is_address_expression()" in a and t for a, t in o.path.conds)
+        expr_arm = any("is_address_expression()" in a and ".left" in a and t for a, t in o.path.conds)
         site = "fix_addresses:pcr/%s" % ("label+n" if expr_arm else "label")
         if not isinstance(ja, Lin):
             c.undecided(site, "jump-amount-not-affine", repr(add)[:80], where)
